@@ -713,6 +713,9 @@ pub fn hook_fixed_size(bits: bool, constraints: Vec<crate::intermediate::constra
     use crate::intermediate::types::*;
     if bits { BitString { constraints, distinguished_values: None }.fixed_size() } else { OctetString { constraints }.fixed_size() }
 }
+pub fn hook_type_is_const(ty: &ASN1Type) -> bool { ty.is_const_type() }
+pub fn hook_type_has_reference(ty: &ASN1Type) -> bool { ty.contains_constraint_reference() }
+pub fn hook_is_elsewhere_declared(v: &ASN1Value) -> bool { v.is_elsewhere_declared() }
 pub fn hook_named_lookup(tld: &crate::intermediate::ToplevelDefinition, type_name: Option<&String>, identifier: &String) -> Option<ASN1Value> { tld.get_distinguished_or_enum_value(type_name, identifier) }
 pub fn hook_has_enum_value(tld: &crate::intermediate::ToplevelDefinition, type_name: Option<&String>, identifier: &String) -> bool { tld.has_enum_value(type_name, identifier) }
 pub fn hook_apply_tagenv_type(ty: &mut ASN1Type, env: &crate::intermediate::TaggingEnvironment) { ty.apply_tagging_environment(env) }
